@@ -354,6 +354,38 @@ def run(tier):
                 cases.append(c)
                 metas.append((aname, fname, s, 0))
                 ctx.case((aname, fname, s))
+    # GROUPED records of differing composition under one group name (all grouped records are instances of one Python class,
+    # and two of these even have the same flattened fields): with / without the field q, members of different types
+    from flow.record import GroupedRecord
+
+    GDa, GDb, GDb2 = _RD("t/gsel", [("varint", "n"), ("string", "s")]), _RD("t/gother", [("string", "q")]), _RD("t/gother2", [("string", "q")])
+    def _g(kind, i):
+        a = GDa(i, "a" if i % 2 else "b", _generated=gen.GEN)
+        if kind == "with-q":
+            return GroupedRecord("g/mix", [a, GDb("a" if i % 3 else "x", _generated=gen.GEN)])
+        if kind == "with-q-other-member-type":
+            return GroupedRecord("g/mix", [a, GDb2("a" if i % 3 else "x", _generated=gen.GEN)])
+        return GroupedRecord("g/mix", [a])
+    for oname, order in (("without-first", ["no-q", "with-q", "with-q-other-member-type", "no-q", "with-q", "with-q-other-member-type", "with-q"]),
+                         ("with-first", ["with-q-other-member-type", "with-q", "no-q", "with-q", "with-q-other-member-type", "no-q"])):
+        pg = os.path.join(tmp, "grouped_%s.records" % oname)
+        gwritten = []
+        with RecordWriter(pg) as w:
+            for i, kind in enumerate(order, 1):
+                g = _g(kind, i)
+                w.write(g)
+                gwritten.append((i, dict({"n": i, "s": str(g.s), "_names": [m._desc.name for m in g.records]}, **({"q": str(g.q)} if kind != "no-q" else {}))))
+        gref = {"r.q == 'a'": lambda v: v.get("q") == "a", "r.q in ['a', 'x']": lambda v: v.get("q") in ("a", "x"), "'t/gother' in names(r)": lambda v: "t/gother" in v["_names"],
+                "'t/gother2' in names(r)": lambda v: "t/gother2" in v["_names"], "'t/gsel' in names(r) and 't/gother' in names(r)": lambda v: "t/gsel" in v["_names"] and "t/gother" in v["_names"], "name(r) == 'g/mix'": lambda v: True,
+                "r.s == 'a' and r.q == 'a'": lambda v: v["s"] == "a" and v.get("q") == "a", "field_equals(r, ['q'], ['a'])": lambda v: v.get("q") == "a", "has_field(r, 'q')": lambda v: "q" in v}
+        for s in ("r.q == 'a'", "r.q != 'a'", "r.q in ['a', 'x']", "'t/gother' in names(r)", "'t/gother2' in names(r)", "'t/gsel' in names(r) and 't/gother' in names(r)", "name(r) == 'g/mix'", "r.s == 'a' and r.q == 'a'",
+                  "field_equals(r, ['q'], ['a'])", "has_field(r, 'q')"):
+            for fname, mk in (("text", lambda s: s), ("selector", Selector), ("compiled", CompiledSelector)):
+                c = run_case(pg, mk(s), len(order), gwritten if s in gref else None, gref.get(s))
+                c["adapter"], c["form"] = "stream/grouped-" + oname, fname
+                cases.append(c)
+                metas.append((c["adapter"], fname, s, 0))
+                ctx.case((c["adapter"], fname, s))
     # records that are EQUAL apart from the fields configured to be ignored in comparisons, filtered on such a field while
     # that configuration is active: the answer belongs to the record at hand, not to one that merely compares equal to it
     from flow.record.base import ignore_fields_for_comparison
